@@ -110,6 +110,32 @@ def _under_misc_here(fn: FuncInfo, node: ast.AST) -> bool:
     return False
 
 
+def _check_combine_per_combination(ctx: Ctx) -> None:
+    """C06.f: whatever combine_simulation_results returns was put together combination by combination."""
+    from ..astutil import return_dependences
+    M = ctx.model
+    ctx.rule('C06.f', 'combine_simulation_results: every returned result set is built through the per-combination lookup of BOTH operands '
+                      '(`<operand>.params.get_pack_indexes(...)`): no return path merges whole result lists, which would combine only one '
+                      'combination per name', floor=1)
+    fn = M.func(RES, 'combine_simulation_results')
+    ops = [p for p in fn.params][:2]
+    rets = [(r, d) for r, d in return_dependences(fn) if r.value is not None]
+    if not rets:
+        ctx.error('C06.f: combine_simulation_results returns nothing (cannot tell)')
+    for r, deps in rets:
+        construct = 'combine_simulation_results:return@%d' % (rets.index((r, deps)))
+        ctx.instance('C06.f', construct)
+        looked = {o: any(d.startswith(o + '.') and d.split('.')[-1] == 'get_pack_indexes' for d in deps) for o in ops}
+        whole = sorted(d for d in deps if d.split('.')[-1] in ('merge_all_results', 'append_all_results'))
+        ok = all(looked.values())
+        ctx.obligation('C06.f', construct, ok, {'per_combination_lookup': looked, 'whole_set_merges': whole})
+        if not ok:
+            ctx.violation('C06.f', 'combine_simulation_results', 'the result set returned at line %d is not built through the per-combination lookup of %s%s: '
+                          'for operands on the same grid only the last combination of each result is combined'
+                          % (r.lineno, [o for o, v in looked.items() if not v], ' (it uses %s)' % whole if whole else ''),
+                          fn.path, r.lineno, operand='per-combination')
+
+
 def _check_merged_once(ctx: Ctx) -> None:
     M = ctx.model
     ctx.rule('C06.e', 'merge_all_results merges every named result exactly once (the specially named num_skipped_reps included)', floor=1)
@@ -197,6 +223,7 @@ def check(ctx: Ctx) -> None:
     _check_stat_sets(ctx)
     _check_numpy_names(ctx)
     _check_merged_once(ctx)
+    _check_combine_per_combination(ctx)
 
 
 def _stored_attrs(nodes, sn: str, model=None, cls=None, depth: int = 0) -> Set[str]:
